@@ -131,6 +131,43 @@ def limited_resume_history(prop, limits=(10 ** 6,)):
     return viol, runs
 
 
+def unaligned_levels_history(prop):
+    """Markov levels listed in another order than 1, 2, 3, ... (`pcfg_omen_prob.txt` is sorted by probability: level 2 first, then 1, 0):
+    a session quit inside the first listed level and resumed - by a fresh process, with a cold memo table - emits the rest of that
+    level and then every later level in full, exactly as the uninterrupted run does"""
+    L3 = ['a', 'b', 'c']
+    spec = {'terminals': {'D1': [['1', '0.5'], ['2', '0.25']]}, 'grammar': [['M', '0.75'], ['D1', '0.25']],
+            'omen_prob': [['2', '0.5'], ['1', '0.25'], ['0', '0.125'], ['3', '0.0625']], 'prince': [], 'mode': 'dyadic', 'encoding': 'utf-8',
+            'omen': {'ngram': 2, 'alphabet': L3, 'ip': [[0, 'a'], [1, 'b'], [1, 'c']], 'ep': [[0, x] for x in L3],
+                     'cp': [[0, 'aa'], [1, 'ab'], [0, 'ac'], [0, 'ba'], [1, 'bb'], [1, 'bc'], [0, 'ca'], [0, 'cb'], [2, 'cc']],
+                     'ln': [10, 0, 0, 1], 'keyspace': [[l, 1] for l in range(0, 19)]}}
+    d = common.write_ruleset(os.path.join(common.scratch_dir('rules'), 'c15unal'), spec)
+    pcfg = common.load_grammar(d)
+    units = ss.units_of(pcfg)
+    full = [l for u in units for l in u[2]]
+    big = 'm' * (len(full) + 2 * len(units) + 5)
+    viol, runs = [], 0
+    for ui in [k for k, u in enumerate(units) if u[0] == 'm' and len(u[2]) >= 2 and k < len(units) - 1][:2]:
+        for j in (0, len(units[ui][2]) - 2):
+            sf = os.path.join(common.scratch_dir('sess'), f"c15unal_{ui}_{j}.sav")
+            for ext in ('.sav', '.omn'):
+                if os.path.exists(sf[:-4] + ext):
+                    os.remove(sf[:-4] + ext)
+            wit = {'unaligned_levels_history': True, 'unit': ui, 'guess': j}
+            try:
+                h1 = ss.run_session(pcfg, sf, C12.new_cfg(), False, quit_schedule(units, ui, j), [('line', 'q', False)])
+                h2 = ss.run_session(common.load_grammar(d), sf, load_cfg(sf), True, big, [])
+            except Exception as e:
+                viol.append({'property': prop, 'kind': 'session-raised', 'error': repr(e)[:200], 'witness': wit})
+                continue
+            runs += 2
+            tot = h1['out'] + h2['out']
+            if tot != full:
+                viol.append({'property': prop, 'kind': 'omen-replay' if len(tot) > len(full) else 'lost-after-resume', 'emitted': len(tot), 'full': len(full),
+                             'sessions': [len(h1['out']), len(h2['out'])], 'levels_in_listed_order': [l for l, _ in spec['omen_prob']], 'witness': wit})
+    return viol, runs
+
+
 def run(ctx):
     rng = ctx.rng
     common.use_impl()
@@ -313,6 +350,9 @@ def run(ctx):
     vs_cli, info_cli = cli_interleaved_sessions('C15', 'c15audit', big_markov_spec())
     viol += vs_cli
     cases += 1
+    v_un, r_un = unaligned_levels_history('C15')
+    viol += v_un
+    cases += r_un
     v_lim, r_lim = limited_resume_history('C15')
     viol += v_lim
     cases += r_lim
@@ -358,6 +398,9 @@ def run(ctx):
 
 
 def replay(ctx, payload):
+    if (payload.get('violation', {}).get('witness') or {}).get('unaligned_levels_history'):
+        common.use_impl()
+        return unaligned_levels_history(payload.get('property', 'C15'))[0]
     if (payload.get('violation', {}).get('witness') or {}).get('limited_resume_history'):
         common.use_impl()
         return limited_resume_history(payload.get('property', 'C15'))[0]
